@@ -28,6 +28,7 @@ import (
 
 const (
 	tShort = 30 * time.Microsecond
+	tMed   = 1 * time.Millisecond // re-armed from a handler: long enough not to expire within the same poll batch
 	tLong  = 10 * time.Second
 )
 
@@ -70,7 +71,7 @@ func (d *tmDriver) newTimer() *mtimer {
 }
 
 func (d *tmDriver) awaitIfShort(m *mtimer) {
-	if m.state == 1 && m.delay == tShort {
+	if m.state == 1 && m.delay <= tMed {
 		if !kern.AwaitReadable(m.fd, settleGuard) {
 			d.x.Inconclusive("timerfd did not expire")
 		}
@@ -218,6 +219,7 @@ func (d *tmDriver) behave(self *mtimer) {
 			beh{"cancel " + t.name, func() { d.cancel(t) }},
 			beh{"close " + t.name, func() { d.closeT(t) }},
 			beh{"cancel+rearm10s " + t.name, func() { d.cancel(t); d.schedule(t, tLong, false) }},
+			beh{"cancel+rearm-1ms " + t.name, func() { d.cancel(t); d.schedule(t, tMed, false) }},
 		)
 		if t == self && self.repeating && self.state == 1 {
 			// a new schedule started from inside the repeating timer's own callback is not constrained by
